@@ -176,7 +176,7 @@ impl Cx {
         let tier = format!("{:?}/avx512f={},avx2={},sse42={},bmi2={},popcnt={}",
                            zipora::memory::SimdMemOps::new().tier(), f.has_avx512f, f.has_avx2, f.has_sse42, f.has_bmi2, f.has_popcnt);
         let mut tr = Tracer::new(&args.out, group);
-        tr.max_events = 450;
+        tr.max_events = 700;
         Cx {
             args: args.clone(),
             tr,
